@@ -126,6 +126,44 @@ def extract_constants(src: str) -> dict:
     out['performance_header_offset'] = _offset(appends['performance_headers'][0], 'performance_headers')
     out['performance_header_old_offset'] = _offset(appends['performance_headers'][1], 'performance_headers (old)')
     out['performance_footer_offset'] = _offset(appends['performance_footers'][0], 'performance_footers')
+    # the tests guarding the bookkeeping: `any([trigger in line for trigger in <list>])` on the right list, in the
+    # if / elif / if / if / elif arrangement the model has; the performance footer additionally needs an open header
+    def trig(name):
+        return f'any([trigger in line for trigger in {name}])'
+
+    def guard_of(call):
+        for n in ast.walk(loop):
+            if isinstance(n, ast.If) and any(isinstance(st, ast.Expr) and st.value is call for st in n.body):
+                return n
+        raise TranslationError('bookkeeping append is not directly inside an `if`')
+
+    def call_of(expr):
+        for n in ast.walk(loop):
+            if isinstance(n, ast.Call) and len(n.args) == 1 and n.args[0] is expr:
+                return n
+        raise TranslationError('append call not found')
+
+    g_th = guard_of(call_of(appends['thermo_headers'][0]))
+    g_tf = guard_of(call_of(appends['thermo_footers'][0]))
+    g_ph = guard_of(call_of(appends['performance_headers'][0]))
+    g_po = guard_of(call_of(appends['performance_headers'][1]))
+    g_pf = guard_of(call_of(appends['performance_footers'][0]))
+    want_tests = [(g_th, trig('thermo_start_trigger')), (g_tf, trig('thermo_end_trigger')),
+                  (g_ph, trig('performance_start_trigger')), (g_po, trig('performance_start_trigger_old_version')),
+                  (g_pf, trig('performance_end_trigger') + ' and len(performance_footers) < len(performance_headers)')]
+    for g, want in want_tests:
+        if ast.unparse(g.test) != want:
+            raise TranslationError(f'Log.read: bookkeeping guarded by `{ast.unparse(g.test)}`, expected `{want}`')
+    if g_th.orelse != [g_tf] or g_tf.orelse or g_ph.orelse or g_po.orelse != [g_pf] or g_pf.orelse \
+            or any(g not in loop.body for g in (g_th, g_ph, g_po)):
+        raise TranslationError('Log.read: the if / elif arrangement of the trigger tests changed')
+    # blank lines: `if len(line.split()) == 0: continue` before anything is looked at or counted
+    blank = [n for n in loop.body if isinstance(n, ast.If) and len(n.body) == 1 and isinstance(n.body[0], ast.Continue)]
+    if len(blank) != 1 or ast.unparse(blank[0].test) != 'len(line.split()) == 0' or blank[0].orelse \
+            or sum(1 for n in ast.walk(loop) if isinstance(n, (ast.Continue, ast.Break))) != 1 \
+            or loop.body.index(blank[0]) > min(loop.body.index(g) for g in (g_th, g_ph, g_po)):
+        raise TranslationError('Log.read: `if len(line.split()) == 0: continue` (the only skip) not found before the '
+                               'trigger tests')
     # the counter must be advanced once per non-blank line
     incs = [n for n in ast.walk(loop) if isinstance(n, ast.AugAssign) and isinstance(n.target, ast.Name)
             and n.target.id == 'i']
@@ -266,6 +304,12 @@ def extract_constants(src: str) -> dict:
     seeks = [k for k, st in enumerate(rt.body) if is_seek0(st)]
     if len(k_csv) != 1 or n_pos_calls(rt) != len(seeks):
         raise TranslationError('__read_thermo: stream positioning other than top-level `log_info.seek(0)` statements')
+    for k, st in enumerate(rt.body):
+        is_doc = isinstance(st, ast.Expr) and isinstance(st.value, ast.Constant) and isinstance(st.value.value, str)
+        is_read = isinstance(st, ast.Assign) and st.value is c and ast.unparse(st.targets[0]) == 'thermo'
+        is_app = isinstance(st, ast.Expr) and st.value is appends_thermo[0]
+        if not (is_doc or is_read or is_app or is_seek0(st)):
+            raise TranslationError(f'__read_thermo: unexpected statement `{ast.unparse(st)[:80]}` (the table is stored as read)')
     out['thermo_seek_before'] = any(k < k_csv[0] for k in seeks)
     out['thermo_seek_after'] = any(k > k_csv[0] for k in seeks)
     rp = get_function(src, '__read_performance')
@@ -304,6 +348,12 @@ def extract_constants(src: str) -> dict:
                  "merged_df = simulations[0].thermo", "for sim in simulations[1:]:"):
         if frag not in src_fl:
             raise TranslationError(f'flatten: `{frag}…` not found')
+    sim_loops = [n for n in ast.walk(fl) if isinstance(n, ast.For) and ast.unparse(n.iter) == 'simulations[1:]']
+    skips = [n for lp in sim_loops for n in ast.walk(lp) if isinstance(n, ast.If)
+             and any(isinstance(x, (ast.Continue, ast.Break)) for x in ast.walk(n))]
+    if len(sim_loops) != 1 or len(skips) != 1 or ast.unparse(skips[0].test) != 'thermo is None' \
+            or len(skips[0].body) != 1 or not isinstance(skips[0].body[0], ast.Continue) or skips[0].orelse:
+        raise TranslationError('flatten: the merge loop skips runs other than by `if thermo is None: continue`')
     out['first_keep_op'] = first
     out['last_keep_op'] = last
     return out
@@ -569,7 +619,7 @@ def _near_int_token(rng):
     return '%d.%s' % (n, '9' * rng.randint(6, 12))
 
 
-def gen_run(rng, start, size, allow_dirty, era, keys=None):
+def gen_run(rng, start, size, allow_dirty, era, keys=None, force=None):
     r = RunSpec()
     r.banner = era[0]
     pool = INT_KEYS + FLOAT_KEYS
@@ -604,7 +654,7 @@ def gen_run(rng, start, size, allow_dirty, era, keys=None):
     dt = rng.choice([1, 5, 10, 10, 50, 100, 100, 1000, 250000])
     # a float column of one run may happen to print integers only (pandas then types it int64 for that run) or
     # values a hair away from integers
-    modes = [rng.choice(['mixed'] * 4 + ['intlike', 'nearint']) for _ in keys]
+    modes = [(force or {}).get(k) or rng.choice(['mixed'] * 4 + ['intlike', 'nearint']) for k in keys]
     rows = []
     for j in range(n):
         row = []
@@ -736,7 +786,8 @@ def gen_log(rng, nruns=None, size='small', allow_dirty=False, allow_backward=Tru
     if rng.random() < 0.9:
         y = rng.randint(2004, 2031)
         m = rng.randint(1, 12)
-        d = rng.randint(1, 28 if m == 2 else 30)
+        import calendar
+        d = rng.choice([rng.randint(1, 9), rng.randint(1, calendar.monthrange(y, m)[1]), calendar.monthrange(y, m)[1]])
         suf = rng.choice(['', '', '', ' - Update 1', ' - Update 3', '-7-g1a2b3c', ' - Development', ' – x'])
         S.version = (d, m, y, suf)
     if nruns is None:
@@ -751,9 +802,17 @@ def gen_log(rng, nruns=None, size='small', allow_dirty=False, allow_backward=Tru
     # one LAMMPS version per file: old banner + old timing lines, old banner + MPI breakdown, or new + new
     era = rng.choice([('old', 'old'), ('old', 'new'), ('new', 'new'), ('new', 'new')])
     same_style = rng.random() < 0.6
+    # a float quantity that sits a hair away from integers for a while and is printed as plain integers by the last
+    # run (a converged / frozen value): the column then has a different type from run to run
+    drift = rng.choice(FLOAT_KEYS) if (nruns >= 2 and rng.random() < 0.2) else None
     for k in range(nruns):
-        keys = S.runs[-1].cols if (S.runs and same_style and rng.random() < 0.85) else None
-        r, dt = gen_run(rng, start, size, allow_dirty, era, keys)
+        keys = S.runs[-1].cols if (S.runs and (same_style or drift) and rng.random() < (0.85 if not drift else 1)) else None
+        force = None
+        if drift:
+            if keys is None:
+                keys = ['Step', drift] + [x for x in rng.sample(INT_KEYS + FLOAT_KEYS, rng.randint(0, 4)) if x != drift]
+            force = {drift: 'intlike' if k == nruns - 1 else 'nearint'}
+        r, dt = gen_run(rng, start, size, allow_dirty, era, keys, force)
         S.runs.append(r)
         if r.inside:
             S.dirty = True
@@ -775,7 +834,12 @@ def gen_log(rng, nruns=None, size='small', allow_dirty=False, allow_backward=Tru
                 start = st[-1]
     # truncation of the final block
     if S.runs and rng.random() < 0.35:
-        S.runs[-1].complete = False
+        r = S.runs[-1]
+        r.complete = False
+        # the crash may also cut the last printed line short (at a token boundary): fewer fields than keywords
+        lo = (r.cols.index('Step') + 1) if 'Step' in r.cols else 1
+        if r.rows and lo < len(r.cols) and rng.random() < 0.4:
+            r.rows[-1] = r.rows[-1][:rng.randint(lo, len(r.cols) - 1)]
     for r in S.runs:
         L += _noise(rng, SETUP + BLANKS, 0, 4)
         L += render_run(rng, r)
@@ -900,10 +964,30 @@ def table_equal(impl, model):
     return all(row_equal(a, b) for a, b in zip(ri, rm))
 
 
+INDEX_COL = '<row labels are not 0..n-1:>'
+
+
 def impl_table(df):
+    if df is None:                      # a record without a thermo table
+        return (['<the record has no thermo table>'], [])
     cols = [str(c) for c in df.columns]
     vals = df.to_numpy(dtype=object) if len(df.columns) else []
     rows = [[canon_value(v) for v in row] for row in vals]
+    # printed numbers are read as numbers: a column whose cells are all numeric tokens / empty but held as text is
+    # shown as text (pandas legitimately keeps a column as text only when a junk line put a non-numeric token into it)
+    for k in range(len(cols)):
+        cells = [row[k] for row in vals]
+        if any(isinstance(v, str) for v in cells) and \
+                all(not isinstance(canon_token(v), tuple) for v in cells if isinstance(v, str) and v != ''):
+            for r, v in zip(rows, cells):
+                if isinstance(v, str):
+                    r[k] = ('s', 'text ' + repr(v))
+    # one table: its rows are labelled 0..n-1 (what read_csv gives and what flatten's ignore_index=True restores); any
+    # other labelling (the runs' own labels repeated, gaps) is shown as an extra column, which no expected table has
+    labels = list(df.index)
+    if len(df.columns) and labels != list(range(len(labels))):
+        cols = cols + [INDEX_COL]
+        rows = [r + [canon_value(l) if not isinstance(l, tuple) else ('s', str(l))] for r, l in zip(rows, labels)]
     return canon_table(cols, rows)
 
 
@@ -1145,6 +1229,9 @@ def gen_history(rng, allow_dirty, size='small', allow_backward=True):
         ops.append(['read', k, rng.choice([None, True, False]), mode, mode != 'text' and rng.random() < 0.7,
                     _position(rng, logs[k]['text']) if mode in STREAM_MODES and rng.random() < 0.3 else None])
         ops.append(['flatten', rng.choice(['first', 'last', 'all']), None, None])
+    if rng.random() < 0.5:      # the usual end of a session: everything that was read, as one table
+        for style in rng.sample(['last', 'first', 'all'], rng.choice([1, 2, 3])):
+            ops.append(['flatten', style, None, None])
     if rng.random() < 0.04:     # a stream opened in text mode: the documented refusal (ends the history)
         ops.append(['read', rng.randrange(nlogs), rng.choice([None, True, False]), rng.choice(TEXT_STREAM_MODES),
                     False, None])
@@ -1257,8 +1344,23 @@ def run_impl(logs, ops, files):
                 elif op[0] == 'flatten':
                     if log is None:
                         log = lmp.Log()
-                    sim = log.flatten(op[1], op[2], op[3])
-                    out.append(('table', impl_table(sim.thermo)))
+                    before = [impl_table(x.thermo) for x in log.simulations]
+                    try:
+                        sim = log.flatten(op[1], op[2], op[3])
+                        res = ('table', impl_table(sim.thermo))
+                    finally:
+                        # flatten is a query: the records of the log are what they were (also after a refusal)
+                        after = [impl_table(x.thermo) for x in log.simulations]
+                    changed = None
+                    if len(after) != len(before):
+                        changed = f'{len(before)} records before, {len(after)} after'
+                    else:
+                        for j, (b, a) in enumerate(zip(before, after)):
+                            if b != a:
+                                changed = (f'record {j} had columns {b[0]} and {len(b[1])} rows before, '
+                                           f'columns {a[0]} and {len(a[1])} rows after')
+                                break
+                    out.append(res + (changed,))
             except Exception as e:  # noqa
                 out.append(('err', exc_class(e), f'{type(e).__name__}: {str(e)[:200]}'))
                 if op[0] != 'flatten':      # a failed read leaves the object half-updated: stop the history
@@ -1342,6 +1444,8 @@ def compare_history(logs, ops, impl_out, replies, where):
                     return k, (f'the stream handed to the read is left at byte {res[2]} of {len(text.encode("utf-8"))}, '
                                f'model: at byte {want}')
         else:
+            if len(res) > 2 and res[2]:
+                return k, 'flatten changed the records of the log: ' + res[2]
             mt = parse_table_reply(rep)
             if res[1][0] != mt[0]:
                 return k, f'flatten columns {res[1][0]} != model {mt[0]}'
@@ -1543,6 +1647,7 @@ def check_history_clauses(logs, ops, impl_out):
                     return kind, (f'op {k}: run {j} ({"complete" if run["complete"] else "truncated"}): '
                                   f'{len(tab[1])} rows read, {len(run["rows"])} printed')
                 for i, (a, b) in enumerate(zip(tab[1], run['rows'])):
+                    b = b + ['nan'] * (len(run['cols']) - len(b))      # a line cut short: the missing fields are NaN
                     if not row_equal(a, b):
                         return 'read:values', (f'op {k}: run {j} row {i}: {[_show(x) for x in a]} != printed {b}')
             if st['version'] != cur['version']:
@@ -1553,6 +1658,9 @@ def check_history_clauses(logs, ops, impl_out):
         else:
             if cur is None:
                 continue
+            if res[0] == 'table' and len(res) > 2 and res[2]:
+                return 'flatten:changes-log', (f'op {k} flatten({op[1]!r}, {op[2]}, {op[3]}) changed the records of the '
+                                               f'log it was asked about: {res[2]}')
             runs = cur['runs'][slice(op[2], op[3])]
             ok_in = (op[1] in ('first', 'last', 'all') and len(runs) >= 1
                      and all('Step' in r['cols'] and len(r['rows']) >= 1 for r in runs))
